@@ -124,10 +124,14 @@ Section Logic.
   Notation M := (M T).
 
   (* the two kernel identities (C04) on which the two presence-switched dictionaries rely *)
+  (* both range over the mappers and the operated function matrices OF THIS INPUT only (so that they can be discharged
+     from the well-formedness of the input for concrete kernels: Proofs/C15k.v does it for the C04 kernels) *)
   Definition law_dlf : Prop := forall (x : lobj T) (l : mat T),
+    In x (objs inp) -> lo_mapper x = true -> In l (lf_fresh K inp) ->
     k_off_dlfm K (k_dlfm K (k_cw K l (n inp))) (lo_mm x) (lo_p x) = k_off_mf K (lo_mm x) (lo_p x) (k_cw K l (n inp)).
-  Definition law_momm : Prop := forall (x : lobj T) (cw : mat T),
-    k_dotT K (conv_mm K (lo_mm x)) cw = k_off_mf K (lo_mm x) (lo_p x) cw.
+  Definition law_momm : Prop := forall (x : lobj T) (l : mat T),
+    In x (objs inp) -> lo_mapper x = true -> In l (lf_fresh K inp) ->
+    k_dotT K (conv_mm K (lo_mm x)) (k_cw K l (n inp)) = k_off_mf K (lo_mm x) (lo_p x) (k_cw K l (n inp)).
 
   (* the block assignments the w-tilde class performs on top of _data_vector_mapper / _curvature_matrix_mapper_diag *)
   Definition dvW : list (vwrite T) :=
@@ -482,6 +486,11 @@ Section Logic.
   Lemma nth_map_lt {A B} (g : A -> B) (l : list A) i d d' : i < length l -> nth i (map g l) d' = g (nth i l d).
   Proof. intro H. rewrite (nth_indep _ d' (g d)) by (now rewrite map_length). apply map_nth. Qed.
 
+  Lemma mapper_in x : In x (mappers inp) -> In (fst x) (objs inp) /\ lo_mapper (fst x) = true.
+  Proof.
+    unfold mappers. intro H. apply filter_In in H. destruct H as [H1 H2]. split; [|exact H2].
+    unfold orng in H1. destruct x as [o r]. apply in_combine_l in H1. exact H1.
+  Qed.
   Lemma flm_md_eq md :
     (md = OffDlf (dlf_of K inp (lf_fresh K inp)) /\ law_dlf) \/ (md = OffMomm (momm_fresh K inp) /\ law_momm) \/ md = OffFresh T ->
     flm_writes K inp md (lf_fresh K inp) = flm_writes K inp (OffFresh T) (lf_fresh K inp).
@@ -489,10 +498,16 @@ Section Logic.
     intro H. unfold flm_writes. f_equal. rewrite !flat_map_concat_map. f_equal.
     apply map_ext_in. intros [i x] Hix. apply map_ext_in. intros [f y] Hfy. f_equal.
     destruct H as [ [-> L] | [ [-> L] | -> ] ]; simpl; [| |reflexivity].
-    - destruct (enum_in _ _ _ y Hfy) as [Hlt _]. unfold dlf_of.
-      rewrite (nth_map_lt (fun l : mat T => k_dlfm K (k_cw K l (n inp))) (lf_fresh K inp) f [] []) by (unfold lf_fresh; now rewrite map_length). apply L.
-    - destruct (enum_in _ _ _ x Hix) as [Hlt Hn]. unfold momm_fresh.
-      rewrite (nth_map_lt (fun x : lobj T * (nat * nat) => conv_mm K (lo_mm (fst x))) (mappers inp) i x []) by assumption. rewrite Hn. apply L.
+    - destruct (enum_in _ _ _ y Hfy) as [Hlt _]. destruct (enum_in _ _ _ x Hix) as [Hlti Hn]. unfold dlf_of.
+      assert (Hlf : f < length (lf_fresh K inp)) by (unfold lf_fresh; now rewrite map_length).
+      rewrite (nth_map_lt (fun l : mat T => k_dlfm K (k_cw K l (n inp))) (lf_fresh K inp) f [] []) by exact Hlf.
+      assert (Hx : In x (mappers inp)) by (rewrite <- Hn; now apply nth_In).
+      destruct (mapper_in x Hx) as [Hx1 Hx2]. apply L; [assumption|assumption|now apply nth_In].
+    - destruct (enum_in _ _ _ y Hfy) as [Hltf _]. destruct (enum_in _ _ _ x Hix) as [Hlt Hn]. unfold momm_fresh.
+      assert (Hlf : f < length (lf_fresh K inp)) by (unfold lf_fresh; now rewrite map_length).
+      rewrite (nth_map_lt (fun x : lobj T * (nat * nat) => conv_mm K (lo_mm (fst x))) (mappers inp) i x []) by assumption. rewrite Hn.
+      assert (Hx : In x (mappers inp)) by (rewrite <- Hn; now apply nth_In).
+      destruct (mapper_in x Hx) as [Hx1 Hx2]. apply L; [assumption|assumption|now apply nth_In].
   Qed.
 
   Lemma write_m_ok' w r ws :
@@ -714,7 +729,7 @@ End Logic.
 Arguments consistent {T} K inp mode p.
 Arguments evolves {T} K inp mode p p'.
 Arguments law_dlf {T} K inp.
-Arguments law_momm {T} K.
+Arguments law_momm {T} K inp.
 Arguments Inv {T} K inp mode st.
 Arguments dvW {T} K inp.
 Arguments cmdW {T} K inp w.
@@ -745,7 +760,7 @@ Section Top.
        vector must be the directly computed one (a shape / linearity law of the kernels, C04) *)
   Definition laws_for (mode : option (wtilde T)) (p : pstore T) : Prop :=
     (s_dlf p <> None -> law_dlf K inp) /\
-    (s_momm p <> None -> law_momm K) /\
+    (s_momm p <> None -> law_momm K inp) /\
     (s_dvm p <> None -> has_func inp = false -> p_dvm K inp mode = p_dv K inp mode).
 
   Lemma fresh_consistent mode p : fresh_store mode p -> laws_for mode p -> consistent K inp mode p.
@@ -899,7 +914,8 @@ Section Top.
   Theorem formalism_choice_value_free w :
     p_dv K inp (Some w) = p_dv K inp None ->
     p_curv K inp (Some w) = p_curv K inp None ->
-    (forall s, mapped_wt K inp (lf_fresh K inp) s = mapped_map K inp (omm_list_of K inp (lf_fresh K inp)) s) ->
+    (forall s, p_rec K inp None = Ok s ->
+               mapped_wt K inp (lf_fresh K inp) s = mapped_map K inp (omm_list_of K inp (lf_fresh K inp)) s) ->
     forall q, pure K inp (Some w) q = pure K inp None q.
   Proof.
     intros Hd Hc Hmp.
@@ -908,7 +924,7 @@ Section Top.
     assert (Hrec : p_rec K inp (Some w) = p_rec K inp None) by (unfold p_rec; now rewrite Hcrm, Hd).
     assert (Hrr : p_recred K inp (Some w) = p_recred K inp None) by (unfold p_recred; now rewrite Hrec).
     intros []; cbn [pure]; try reflexivity; try congruence.
-    - unfold p_mapped. rewrite Hrec. destruct (p_rec K inp None); simpl; [now rewrite Hmp | reflexivity].
+    - unfold p_mapped. rewrite Hrec. destruct (p_rec K inp None) as [sv|e] eqn:Er; simpl; [now rewrite (Hmp sv eq_refl) | reflexivity].
     - unfold p_regterm. now rewrite Hrr.
     - unfold p_ldc. now rewrite Hcrr.
   Qed.
@@ -944,9 +960,9 @@ Section Toy.
     k_quad := fun _ _ => 0;
     k_solve := fun _ b => Ok b; k_ldc := fun A => Ok (hd 0 (hd [] A)); k_ldr := fun _ => Ok 9 |}.
   Lemma zk_law_dlf inp : law_dlf zk inp.
-  Proof. intros x l. reflexivity. Qed.
-  Lemma zk_law_momm : law_momm zk.
-  Proof. intros x cw. reflexivity. Qed.
+  Proof. intros x l _ _ _. reflexivity. Qed.
+  Lemma zk_law_momm inp : law_momm zk inp.
+  Proof. intros x l _ _ _. reflexivity. Qed.
 
   Definition zmapper (p : nat) (mm : mat Z) (reg : option (mat Z)) : lobj Z :=
     {| lo_mapper := true; lo_mm := mm; lo_ovr := None; lo_p := p; lo_reg := reg |}.
@@ -1047,7 +1063,8 @@ Section Toy.
     {| in_ds := zds; in_objs := [zmapper 2 [[1; 0]; [0; 1]] (Some [[1; 0]; [0; 1]])]; in_use_wt := true; in_eps := 7 |}.
   Lemma formalism_hyps_hold :
     p_dv zk2 inpD (Some (ds_wt zds)) = p_dv zk2 inpD None /\ p_curv zk2 inpD (Some (ds_wt zds)) = p_curv zk2 inpD None
-    /\ (forall s, mapped_wt zk2 inpD (lf_fresh zk2 inpD) s = mapped_map zk2 inpD (omm_list_of zk2 inpD (lf_fresh zk2 inpD)) s).
+    /\ (forall s, p_rec zk2 inpD None = Ok s ->
+                  mapped_wt zk2 inpD (lf_fresh zk2 inpD) s = mapped_map zk2 inpD (omm_list_of zk2 inpD (lf_fresh zk2 inpD)) s).
   Proof. repeat split. Qed.
 End Toy.
 
@@ -1127,38 +1144,79 @@ Section DvmLaw.
   Qed.
   Lemma ranges_from_length (l : list (lobj T)) : forall off, length (ranges_from off l) = length l.
   Proof. induction l as [|o l IH]; intro off; simpl; [reflexivity|now rewrite IH]. Qed.
-  Lemma writes_are_cwrites (blk : lobj T -> vec T) l : (forall o, length (blk o) = lo_p o) -> forall off,
+  Lemma writes_are_cwrites (blk : lobj T -> vec T) l : (forall o, In o l -> length (blk o) = lo_p o) -> forall off,
     map (fun x : lobj T * (nat * nat) => {| vw_lo := fst (snd x); vw_hi := snd (snd x); vw_b := blk (fst x) |})
         (combine l (ranges_from off l)) = cwrites T off (map blk l).
   Proof.
-    intros Hs. induction l as [|o l IH]; intro off; simpl; [reflexivity|]. rewrite Hs. now rewrite IH.
+    induction l as [|o l IH]; intros Hs off; simpl; [reflexivity|]. rewrite Hs by (now left).
+    rewrite IH by (intros o' Ho'; apply Hs; now right). reflexivity.
   Qed.
-  Lemma total_sum (blk : lobj T -> vec T) l : (forall o, length (blk o) = lo_p o) -> forall a,
+  Lemma total_sum (blk : lobj T -> vec T) l : (forall o, In o l -> length (blk o) = lo_p o) -> forall a,
     fold_left (fun a o => a + lo_p o) l a = a + length (concat (map blk l)).
   Proof.
-    intros Hs. induction l as [|o l IH]; intro a; simpl; [lia|]. rewrite IH, app_length, Hs. lia.
+    induction l as [|o l IH]; intros Hs a; simpl; [lia|]. rewrite IH by (intros o' Ho'; apply Hs; now right).
+    rewrite app_length, Hs by (now left). lia.
+  Qed.
+  Lemma no_func_mappers : has_func inp = false -> mappers inp = orng inp.
+  Proof.
+    intro Ef. unfold mappers. apply filter_neg_nil. unfold has_func in Ef. fold (funcs inp).
+    destruct (funcs inp); [reflexivity|discriminate].
+  Qed.
+  (* without function objects, assigning every object's block at its parameter range into zeros is concatenation *)
+  Lemma assembled_is_concat (blk : lobj T -> vec T) :
+    (forall o, In o (objs inp) -> length (blk o) = lo_p o) -> has_func inp = false ->
+    apply_vws K (zeros_v K (total inp))
+      (map (fun x : lobj T * (nat * nat) => {| vw_lo := fst (snd x); vw_hi := snd (snd x); vw_b := blk (fst x) |}) (mappers inp))
+    = concat (map blk (objs inp)).
+  Proof.
+    intros Hb Ef. rewrite (no_func_mappers Ef). unfold orng. rewrite (writes_are_cwrites blk (objs inp) Hb 0).
+    unfold zeros_v, total. rewrite (total_sum blk (objs inp) Hb 0). simpl.
+    pose proof (apply_cwrites T K (map blk (objs inp)) [] []) as H. simpl in H. rewrite !app_nil_r in H. exact H.
   Qed.
 
   Theorem dvm_law_wt w : shape_dv_wt -> has_func inp = false -> p_dvm K inp (Some w) = p_dv K inp (Some w).
   Proof.
     intros Hs Ef. unfold p_dvm, p_dv. rewrite Ef.
-    set (blk := fun o : lobj T => k_dv_wt K (p_wtd K inp) (lo_mm o) (lo_p o)).
-    assert (Hb : forall o, length (blk o) = lo_p o) by (intro o; apply Hs).
-    assert (Hm : mappers inp = orng inp).
-    { unfold mappers. apply filter_neg_nil. unfold has_func in Ef. fold (funcs inp).
-      destruct (funcs inp); [reflexivity|discriminate]. }
-    assert (Hd : apply_vws K (zeros_v K (total inp)) (dvm_writes_wt K inp (p_wtd K inp)) = concat (map blk (objs inp))).
-    { assert (Hw : dvm_writes_wt K inp (p_wtd K inp) = cwrites T 0 (map blk (objs inp))).
-      { unfold dvm_writes_wt. rewrite Hm. unfold orng. exact (writes_are_cwrites blk (objs inp) Hb 0). }
-      rewrite Hw. unfold zeros_v, total. rewrite (total_sum blk (objs inp) Hb 0). simpl.
-      pose proof (apply_cwrites T K (map blk (objs inp)) [] []) as H. simpl in H. rewrite !app_nil_r in H. exact H. }
-    rewrite Hd. destruct (Nat.eqb (length (mappers inp)) 1) eqn:En; [|reflexivity].
-    apply Nat.eqb_eq in En. rewrite Hm in En. unfold orng in En. rewrite combine_length, ranges_from_length, Nat.min_id in En.
+    pose (blk := fun o : lobj T => k_dv_wt K (p_wtd K inp) (lo_mm o) (lo_p o)).
+    assert (Hb : forall o, In o (objs inp) -> length (blk o) = lo_p o) by (intros o _; apply Hs).
+    pose proof (assembled_is_concat blk Hb Ef) as Hd. unfold blk in Hd. cbv beta in Hd. unfold dvm_writes_wt. rewrite Hd.
+    destruct (Nat.eqb (length (mappers inp)) 1) eqn:En; [|reflexivity].
+    apply Nat.eqb_eq in En. rewrite (no_func_mappers Ef) in En. unfold orng in En.
+    rewrite combine_length, ranges_from_length, Nat.min_id in En.
     unfold objs in *. destruct (in_objs inp) as [|o [|o2 l]]; try discriminate. simpl. now rewrite app_nil_r.
+  Qed.
+
+  (* the same for the MAPPING class: `if preloads.data_vector_mapper is not None and not has(func): return it`.
+     Two laws of the kernels are needed: every mapper's block has as many entries as the mapper has parameters, and the
+     data vector of horizontally stacked matrices is the concatenation of the data vectors (C04: D(hstack B_i)) *)
+  Definition blk_map (o : lobj T) : vec T := k_dv_bmm K (conv_mm K (lo_mm o)) (d inp) (n inp).
+  Definition shape_dv_map : Prop := forall o, In o (objs inp) -> length (blk_map o) = lo_p o.
+  Definition hcat_dv_map : Prop :=
+    k_dv_bmm K (hstack (map (fun o => conv_mm K (lo_mm o)) (objs inp))) (d inp) (n inp) = concat (map blk_map (objs inp)).
+  Definition mappers_plain : Prop := forall o, In o (objs inp) -> lo_ovr o = None.
+  Lemma func_index_length (l : list (lobj T)) : forall k, length (func_index_from k l) = length l.
+  Proof. induction l as [|o l IH]; intro k; simpl; [reflexivity|now rewrite IH]. Qed.
+  Lemma omm_list_plain (lf : list (mat T)) (l : list (lobj T)) : (forall o, In o l -> lo_ovr o = None) -> forall k,
+    map2 (fun o k => match lo_ovr o with None => conv_mm K (lo_mm o) | Some _ => nth k lf [] end) l (func_index_from k l)
+    = map (fun o => conv_mm K (lo_mm o)) l.
+  Proof.
+    induction l as [|o l IH]; intros H k; simpl; [reflexivity|]. rewrite (H o) by (now left).
+    rewrite IH by (intros o' Ho'; apply H; now right). reflexivity.
+  Qed.
+  Theorem dvm_law_map : shape_dv_map -> hcat_dv_map -> mappers_plain -> has_func inp = false ->
+    p_dvm K inp None = p_dv K inp None.
+  Proof.
+    intros Hs Hc Hp Ef. unfold p_dvm, p_dv, p_omm, dvm_writes_map.
+    pose proof (assembled_is_concat blk_map Hs Ef) as Hd. unfold blk_map in Hd at 1. cbv beta in Hd. rewrite Hd.
+    unfold omm_list_of. rewrite (omm_list_plain (lf_fresh K inp) (objs inp) Hp 0). symmetry. exact Hc.
   Qed.
 End DvmLaw.
 
 Arguments shape_dv_wt {T} K.
+Arguments shape_dv_map {T} K inp.
+Arguments hcat_dv_map {T} K inp.
+Arguments mappers_plain {T} inp.
+Arguments blk_map {T} K inp o.
 (* the toy kernels satisfy the shape law, and inpD (one mapper, no function object) is in its scope *)
 Lemma zk_shape : shape_dv_wt zk.
 Proof. intros wtd M p. apply repeat_length. Qed.
